@@ -119,18 +119,20 @@ fn legacy_variants(blob: &[u8]) -> Vec<(&'static str, Option<Val>)> {
     ]
 }
 
-fn shapes_sweep(_ctx: &Ctx) -> Sweep {
+fn shapes_sweep(name: &'static str, lengths: bool) -> Sweep {
     let og = openpgp_variants();
     let rsa = legacy_variants(b"\x10rsa-R");
     let dsa = legacy_variants(b"\x20dsa-D");
     let pgp = legacy_variants(b"\x30pgp-P");
-    let rad = [og.len() as u64, 5, 5, 5, 3, 3, 3, 3, 2, 2, 3];
+    // the main sweep has digests ∈ {absent, correct, wrong}; the 'lengths' sweep adds truncated / empty digests on a reduced legacy-tag axis
+    let (nd, nl, no, na) = if lengths { (5u64, 2u64, 1u64, 1u64) } else { (3, 5, 2, 3) };
+    let rad = [og.len() as u64, nl, nl, nl, nd, nd, nd, nd, 2, no, na];
     let n = product(&rad);
     let rule = format!(
-        "{} signature-header shapes: OpenPGP tag ∈ {{absent; string array with 0–3 items (good base64, malformed base64, empty string); binary / string / i18n type}} × RSA, DSA, PGP tags ∈ {{absent; binary with 0, 1, 6 bytes; string type}} × SHA-256, SHA-1, MD5, payload digest ∈ {{absent, correct, wrong}} × payload ∈ {{empty, 5 bytes}} × signature index sorted / reversed × the verifier's algorithm() answer ∈ {{RSA, EdDSA, ECDSA}}; for each shape ALL accept/reject answer sequences of a scripted verifier are explored (engine C, unbounded deviations). Oracle: Ok ⇒ ≥ 1 call ∧ every answer accept ∧ each call's data = canonical main header (header‖payload for the PGP tag) ∧ its signature bytes = the stored item ∧ all recorded digests match. non-trivial = execution that consulted the verifier",
+        "{} signature-header shapes: OpenPGP tag ∈ {{absent; string array with 0–3 items (good base64, malformed base64, empty string); binary / string / i18n type}} × RSA, DSA, PGP tags ∈ {{absent; binary with 0, 1, 6 bytes; string type}} × SHA-256, SHA-1, MD5, payload digest ∈ {{absent, correct, wrong, truncated to half, empty}} × payload ∈ {{empty, 5 bytes}} × signature index sorted / reversed × the verifier's algorithm() answer ∈ {{RSA, EdDSA, ECDSA}}; for each shape ALL accept/reject answer sequences of a scripted verifier are explored (engine C, unbounded deviations). Oracle: Ok ⇒ ≥ 1 call ∧ every answer accept ∧ each call's data = canonical main header (header‖payload for the PGP tag) ∧ its signature bytes = the stored item ∧ all recorded digests match. non-trivial = execution that consulted the verifier",
         n
     );
-    Sweep::new("scripted-verifier", rule, n, move |i, acc| {
+    Sweep::new(name, rule, n, move |i, acc| {
         let d = decode(i, &rad);
         let payload: &[u8] = if d[8] == 0 { b"" } else { b"PAYLD" };
         let mut parts = hand_encoded(payload);
@@ -143,16 +145,24 @@ fn shapes_sweep(_ctx: &Ctx) -> Sweep {
                 set(&mut parts.sig, tag, Some(v.clone()));
             }
         }
+        if lengths && [d[4], d[5], d[6], d[7]].iter().all(|v| *v < 3) {
+            return; // covered by the main sweep
+        }
+        // reduced legacy axis of the 'lengths' sweep: absent / binary with 6 bytes
+        let leg = |k: u64| if lengths { [0u64, 3][k as usize] } else { k };
+        let d = { let mut d = d; d[1] = leg(d[1]); d[2] = leg(d[2]); d[3] = leg(d[3]); d };
         let dg = |x: u64| match x {
             0 => D::Absent,
             1 => D::Correct,
-            _ => D::Wrong(1),
+            2 => D::Wrong(1),
+            3 => D::Truncated,
+            _ => D::Empty,
         };
         let plan = DigestPlan { sha256: dg(d[4]), sha1: dg(d[5]), md5: dg(d[6]), payload: dg(d[7]), algo: 8 };
         parts.order = (d[9] as u8, 0);
         let valgo = ALGOS[d[10] as usize];
         let (x, lay) = with_digests(&parts, &plan);
-        let digests_ok = [d[4], d[5], d[6], d[7]].iter().all(|v| *v != 2);
+        let digests_ok = [d[4], d[5], d[6], d[7]].iter().all(|v| *v < 2);
         let hdr_bytes = x[lay.hdr_off..lay.payload_off].to_vec();
         let mut hdr_payload = hdr_bytes.clone();
         hdr_payload.extend_from_slice(payload);
@@ -196,7 +206,8 @@ fn shapes_sweep(_ctx: &Ctx) -> Sweep {
                     c["verifier_answers(0=accept,1=reject)"] = json!(script);
                     c
                 };
-                if !calls.is_empty() {
+                // non-trivial: the verifier was consulted (main sweep) / a digest of another length was judged (lengths sweep)
+                if !calls.is_empty() || lengths {
                     a.nontrivial += 1;
                 }
                 match r {
@@ -371,7 +382,7 @@ fn flips_sweep(ctx: &Ctx, env: &Env, key: Key, pairs: bool) -> Sweep {
 
 pub fn sweeps(ctx: &Ctx) -> Vec<Sweep> {
     let env = Env::new(&ctx.repo, "c02");
-    let mut v = vec![shapes_sweep(ctx)];
+    let mut v = vec![shapes_sweep("scripted-verifier", false), shapes_sweep("scripted-verifier-lengths", true)];
     let keys: Vec<Key> = if ctx.thorough() { ALL_KEYS.to_vec() } else { vec![Key::Ed25519, Key::EcdsaP256] };
     for k in keys {
         v.push(flips_sweep(ctx, &env, k, false));
@@ -386,11 +397,12 @@ pub fn run(ctx: &Ctx) -> i32 {
     let mut subs: Vec<SubReport> = vec![];
     for s in sweeps(ctx) {
         let (mut sub, _ev) = run_sweep(ctx, &s);
-        if s.name == "scripted-verifier" {
+        if s.name.starts_with("scripted-verifier") {
             sub.engine = "C (choice-point explorer, all verifier answers) inside A (shape enumeration)";
         }
         subs.push(sub);
     }
+    subs.push(crate::aging::run(ctx, "object-histories", &["signature"]));
     for s in &subs {
         if s.acc.nontrivial == 0 {
             crate::ctx::machinery(&format!("sub-check {} judged nothing: vacuous", s.name));
